@@ -7,9 +7,9 @@ def run(ctx):
     q = ctx.quick
     st, tr = coreloop.design(ctx, [("CoreLoopMC_ledger2", 8)])
     cs = []
-    for i in range(30 if q else 180):
+    for i in range(36 if q else 180):
         cs.append(dict(seed=ctx.seed + 5000 + i, slots=[1, 2, 5, 16, 64][i % 5], events=2 + i % 2, prims=3,
-                       emax=[30, 300][i % 2], dets=i % 6, fluct=i % 2, scale=[1, 5, 20, 50][i % 4],
+                       emax=[30, 300][i % 2], dets=i % 9, fluct=i % 2, scale=[1, 5, 20, 50][i % 4],
                        order=["none", "init_charge", "reindex_shuffle"][i % 3], inflight=[0, 2][i % 2], maxsteps=40000,
                        diag=1))
     tot, outs = coreloop.validate(ctx, cs, ["C17."], nshards=8)
